@@ -33,6 +33,9 @@ ASSIST = 'supp/assistant.py'
 
 
 def run(repo, res):
+    _ns, _np = R.shape_stats(repo)
+    res.extra['e1_shapes_interpreted'] = _ns
+    res.extra['e1_shape_paths_interpreted'] = _np
     # ---- R1 / R3 read coverage and placement ---------------------------------
     cov = R.read_coverage(repo)
     for (cls, path), r in sorted(cov.items()):
